@@ -43,5 +43,51 @@ Fixpoint kw_lookup (k : string) (kw : list (string * sval unit)) : option (sval 
   | (k', v) :: r => if String.eqb k k' then Some v else kw_lookup k r
   end.
 Definition call_kw (k : string) (e : sevent unit) : option (sval unit) :=
-  match e with SCall _ _ kw => kw_lookup k kw end.
-Definition call_pos (e : sevent unit) : list (sval unit) := match e with SCall _ p _ => p end.
+  match e with SCall _ _ kw => kw_lookup k kw | SMethod _ _ _ kw => kw_lookup k kw end.
+Definition call_pos (e : sevent unit) : list (sval unit) := match e with SCall _ p _ => p | SMethod _ _ p _ => p end.
+
+(* ---- toasty tile-multi-tan (cli.py:500-523): no test at all; the collection is built from the
+   paths and the HDU / WCS-key selections the user gave, the tiler gets --parallelism ---- *)
+Definition mt_pio : sval unit := pyramid_at (setting "outdir") [("default_format", SStr "fits")].
+Definition mt_builder : sval unit := SNewP "Builder" [mt_pio] [].
+Definition mt_collection : sval unit :=
+  SNewP "SimpleFitsCollection" [setting "paths"] [("hdu_index", setting "hdu_index"); ("wcs_key", setting "wcs_key")].
+Definition mt_processor : sval unit := SNewP "MultiTanProcessor" [mt_collection] [].
+Definition tile_multi_tan_impl_model : bool * list (sevent unit) :=
+  (true, [SMethod mt_processor "compute_global_pixelization" [mt_builder] [];
+          SMethod mt_processor "tile" [mt_pio] [("parallel", setting "parallelism"); ("cli_progress", SB true)];
+          SMethod mt_builder "write_index_rel_wtml" [] []]).
+
+(* ---- toasty tile-allsky (cli.py:324-397): the projection name selects the sampler factory and the
+   planet / panorama flags; the thumbnail comes first; depth, worker count and name are passed on ---- *)
+Definition as_image : sval unit :=
+  SCallA "load_path" (SCallA "create_from_args" (SName "ImageLoader") [SName "settings"] []) [setting "imgpath"] [].
+Definition as_builder : sval unit := SNewP "Builder" [pyramid_at (setting "outdir") []] [].
+Definition allsky_calls (sampler_fn : string) (planet pano : bool) (is_true : sval unit -> bool) : list (sevent unit) :=
+  [ (if is_true (setting "placeholder_thumbnail")
+     then SMethod as_builder "make_placeholder_thumbnail" [] []
+     else SMethod as_builder "make_thumbnail_from_other" [as_image] []);
+    SMethod as_builder "toast_base" [SNewP sampler_fn [SCallA "asarray" as_image [] []] []; setting "depth"]
+            [("is_planet", SB planet); ("is_pano", SB pano); ("parallel", setting "parallelism"); ("cli_progress", SB true)];
+    SMethod as_builder "set_name" [setting "name"] [];
+    SMethod as_builder "write_index_rel_wtml" [] [] ].
+
+(* projection name -> (sampler factory, is_planet, is_pano), in the order the command tests them *)
+Definition projection_table : list (string * (string * bool * bool)) :=
+  [ ("plate-carree", ("plate_carree_sampler", false, false));
+    ("plate-carree-galactic", ("plate_carree_galactic_sampler", false, false));
+    ("plate-carree-ecliptic", ("plate_carree_ecliptic_sampler", false, false));
+    ("plate-carree-planet", ("plate_carree_planet_sampler", true, false));
+    ("plate-carree-planet-zeroleft", ("plate_carree_planet_zeroleft_sampler", true, false));
+    ("plate-carree-planet-zeroright", ("plate_carree_zeroright_sampler", true, false));
+    ("plate-carree-panorama", ("plate_carree_sampler", false, true)) ].
+
+Fixpoint allsky_from (tbl : list (string * (string * bool * bool)))
+         (eq_lit : sval unit -> string -> bool) (is_true : sval unit -> bool) : bool * list (sevent unit) :=
+  match tbl with
+  | [] => (false, [])                        (* unknown projection: die *)
+  | (name, (fn, pl, pa)) :: r =>
+      if eq_lit (setting "projection") name then (true, allsky_calls fn pl pa is_true)
+      else allsky_from r eq_lit is_true
+  end.
+Definition tile_allsky_impl_model := allsky_from projection_table.
